@@ -2,10 +2,11 @@
 Require Extraction.
 Require Import ExtrOcamlBasic.
 From Coq Require Import ZArith NArith List.
-Require Import Yui.Model.KhCube Yui.Model.KhHomology Yui.Model.KhLee.
+Require Import Yui.Model.KhCube Yui.Model.KhSigns Yui.Model.KhHomology Yui.Model.KhLee.
 Extraction Language OCaml.
 Extraction "../ocaml/gen/c06_model.ml"
   Z.add N.add Nat.add
+  KhSigns.signed_nums KhSigns.crossing_signs
   KhCube.mirror KhCube.first_edge KhCube.circles
   KhHomology.build_cube KhHomology.kh_groups
   KhLee.lee_check KhLee.seifert_state.
